@@ -4,11 +4,15 @@
    Model: model/VidMap.v — vid2Locations as Go slices (array id, len, cap) over a
    heap of backing arrays, addLocation / deleteLocation / lookups as in
    weed/wdclient/vid_map.go, and the update events the receive loop of
-   masterclient.go performs (one lock acquisition each; EvReset = the cache
-   replacement after a lost connection).  Reference: plain per-volume lists.
+   masterclient.go performs.  Each event is ONE acquisition of the write lock:
+   addLocation, deleteLocation, and — since fix-c35-reset-under-lock —
+   EvReset = vidMap.reset() after a lost or failed connection (before that repair
+   tryAllMasters overwrote the struct, mutex included, without any lock and a
+   concurrent GetLocations died in RUnlock).  Reference: plain per-volume lists.
 
    The tree is the REPAIRED one (fix-c35-delete-copies, fix-c35-reconnect-dc,
-   fix-c35-vid-parse); all statements below are full. *)
+   fix-c35-vid-parse, fix-c35-reset-under-lock, fix-c35-delete-last-entry); all
+   statements below are full. *)
 From Coq Require Import String List NArith ZArith Bool Permutation.
 From SW Require Import model.VidMap proof.VidMapProofs.
 Import ListNotations.
@@ -40,6 +44,27 @@ Theorem c35_view_is_reference : forall d evs v,
   view (run (init d) evs) v = r_find v (r_run [] evs).
 Proof. exact view_is_reference. Qed.
 Print Assumptions c35_view_is_reference.
+
+(* the "or not-found" clause: not-found exactly when no location of the volume is
+   currently added (never added, all removed, or dropped by a lost connection) *)
+Theorem c35_not_found_iff : forall d evs v,
+  lookup_locs (run (init d) evs) v = Err ErrNotFound <-> forall u, live v u evs = None.
+Proof. exact not_found_iff. Qed.
+Print Assumptions c35_not_found_iff.
+
+(* ... and never "found, no locations" *)
+Theorem c35_found_is_nonempty : forall d evs v ls, view (run (init d) evs) v = Some ls -> ls <> [].
+Proof. exact view_nonempty. Qed.
+Print Assumptions c35_found_is_nonempty.
+
+(* "same data center first" on the cache's own lookup after any history: own-DC
+   locations, then the others; a permutation of the cached list; never empty *)
+Theorem c35_lookup_same_dc_first : forall d evs v ls, lookup_locs (run (init d) evs) v = Ok ls ->
+  exists a b, ls = a ++ b /\ forallb (same_dc d) a = true /\
+              forallb (fun l => negb (same_dc d l)) b = true /\
+              Permutation ls (view_list (run (init d) evs) v) /\ ls <> [].
+Proof. exact lookup_same_dc_first. Qed.
+Print Assumptions c35_lookup_same_dc_first.
 
 (* "same data center first" read off the reference answer *)
 Theorem c35_same_dc_first : forall d r v ls, r_lookup d r v = Ok ls ->
@@ -75,6 +100,36 @@ Theorem c35_snapshot_stable : forall d evs1 evs2 v hd,
 Proof. exact snapshot_stable. Qed.
 Print Assumptions c35_snapshot_stable.
 
+(* a LOOKUP that overlaps updates: LookupVolumeServerUrl holds the read lock only
+   inside GetLocations (after evs1); it then reads cell i of the slice after any
+   further updates [t i] and vc.DataCenter after any further updates [t'] — and
+   still answers what the atomic lookup answered at the moment of the lock *)
+Theorem c35_concurrent_lookup : forall d evs1 (t : nat -> list ev) t' v,
+  lookup_locs_conc (run (init d) evs1) (fun i => run (init d) (evs1 ++ t i))
+                   (run (init d) (evs1 ++ t')) v
+  = lookup_locs (run (init d) evs1) v.
+Proof. exact concurrent_lookup. Qed.
+Print Assumptions c35_concurrent_lookup.
+
+(* a reader that takes the read lock after j of the updates sees the reference's
+   list of that index: every Url once, exactly the currently added ones, not-found
+   iff none *)
+Theorem c35_concurrent_get_exact : forall d evs j v,
+  let ls := view_list (run (init d) (firstn j evs)) v in
+  view (run (init d) (firstn j evs)) v = r_find v (r_run [] (firstn j evs)) /\
+  NoDup (map url ls) /\ (forall u, find_url u ls = live v u (firstn j evs)) /\
+  (view (run (init d) (firstn j evs)) v = None <-> forall u, live v u (firstn j evs) = None).
+Proof. exact concurrent_get_exact. Qed.
+Print Assumptions c35_concurrent_get_exact.
+
+(* the decidable checker the concurrent harness mode is judged by: a reader call
+   that began after lo updates had completed and returned before more than hi had
+   begun is accepted iff SOME index in that window explains its answer *)
+Theorem c35_window_checker : forall p lo hi,
+  window_ok p lo hi = true <-> exists j, lo <= j <= hi /\ p j = true.
+Proof. exact window_ok_spec. Qed.
+Print Assumptions c35_window_checker.
+
 (* ---------------- lookup by volume-id string ---------------- *)
 
 (* a string is answered only with the locations of the uint32 volume id it spells *)
@@ -100,7 +155,7 @@ Theorem c35_leader_hint_ignored : forall g, m_leader g <> "" -> events_of_op (Ms
 Proof. exact leader_hint_ignored. Qed.
 Print Assumptions c35_leader_hint_ignored.
 
-(* non-vacuity / regression: the former witnesses of the three repaired defects *)
+(* non-vacuity / regression: the former witnesses of the five repaired defects *)
 Example c35_example :
   (* a slice held across a delete still shows what it showed *)
   (exists hd, get_locations (run (init dcA) alias_before) 1%N = Some hd /\
@@ -110,5 +165,14 @@ Example c35_example :
   lookup_locs (run (init dcA) reconnect_witness) 1%N = Ok [locA; locB] /\
   (* an id string that is no uint32 is rejected *)
   lookup_volume_server_url (run (init dcA) [EvAdd 1%N locA]) "4294967297" = Err ErrParse /\
-  lookup_volume_server_url (run (init dcA) [EvAdd 1%N locA]) "1" = Ok ["u1"].
-Proof. vm_compute. repeat split; try reflexivity. eexists. split; reflexivity. Qed.
+  lookup_volume_server_url (run (init dcA) [EvAdd 1%N locA]) "1" = Ok ["u1"] /\
+  (* the last location removed: not-found, not "found, empty" *)
+  lookup_locs (run (init dcA) last_gone) 1%N = Err ErrNotFound /\
+  get_locations (run (init dcA) last_gone) 1%N = None /\
+  (* and a slice taken before still shows it, across the removal and a reconnect *)
+  (exists hd, get_locations (run (init dcA) [EvAdd 1%N locA]) 1%N = Some hd /\
+     map url (cells (heap (run (init dcA) (last_gone ++ [EvReset; EvAdd 1%N locB]))) hd) = ["u1"]) /\
+  (* the window checker: an answer explained by index 2 only *)
+  window_ok (fun j => Nat.eqb j 2) 1 3 = true /\ window_ok (fun j => Nat.eqb j 2) 3 5 = false.
+Proof. exact example_witnesses. Qed.
+Print Assumptions c35_example.
